@@ -4,12 +4,15 @@
 //	storedrv replay <programs.ndjson>     one JSON program per line -> one JSON result per line
 //	storedrv record [flags]               seeded random history -> ndjson trace events (stdout)
 //
-// A program is {"id":..,"cfg":{stores,transient,kr,ke,backend},"steps":[...]} with steps
+// A program is {"id":..,"cfg":{stores,transient,kr,ke,backend[,strat]},"steps":[...]} (with "strat" the
+// pruning options are what the real store.NewPruningOptionsFromString makes of that string) with steps
 //
 //	{"a":"reopen"}                         drop the handle, build a fresh one (LoadLatestVersion)
 //	{"a":"write","op":{"s","k","v","del"}}
 //	{"a":"observe"}                        only the observations below
 //	{"a":"commit","faults":bool,"tries":n} real Commit; faults: enumerate every crash point
+//	{"a":"liveload","v":n}                 LoadVersion(n) on the LIVE handle: ok/err, the handle's
+//	                                       LastCommitID and content before ("pre") and after
 //	{"a":"crash"}                          the process dies between durable writes of no commit
 //	{"a":"crashcommit","done":[classes]}   the process dies inside Commit after exactly these writes
 //
@@ -33,6 +36,7 @@ import (
 type Step struct {
 	A       string          `json:"a"`
 	Op      *sl.WOp         `json:"op,omitempty"`
+	V       int64           `json:"v,omitempty"`
 	Faults  bool            `json:"faults,omitempty"`
 	Tries   int             `json:"tries,omitempty"`
 	Done    []string        `json:"done,omitempty"`
@@ -130,6 +134,19 @@ func runProgram(p Program) sl.M {
 			}
 		case "observe":
 			observe(n, st, o)
+		case "liveload":
+			if n.H == nil {
+				o["tool_error"] = "liveload without a handle"
+				break
+			}
+			r := n.H.LiveLoad(st.V)
+			for k, v := range r {
+				o[k] = v
+			}
+			if r["ok"] == true {
+				// the uncommitted writes went with the replaced sub-stores
+				n.Pending = nil
+			}
 		case "commit":
 			if n.H == nil {
 				o["tool_error"] = "commit without a handle"
@@ -283,10 +300,20 @@ func record(args []string) int {
 	prestart := fs.Float64("prestart", 0.05, "probability of a clean restart after a commit")
 	spal := fs.Bool("set-pruning-after-load", false, "call SetPruning on the live store after LoadLatestVersion instead of before")
 	pruneAfter := fs.Bool("prune-after-flush", false, "log the pruning steps that wrote nothing after the flush (for code that prunes after the flush)")
+	strategy := fs.String("strategy", "", "pruning strategy string resolved by store.NewPruningOptionsFromString (overrides --kr/--ke; may be empty: see --use-strategy)")
+	useStrategy := fs.Bool("use-strategy", false, "take the pruning options from --strategy")
+	pll := fs.Float64("pliveload", 0, "probability of LoadVersion calls on the live handle after a commit (and a quarter of it between two writes)")
 	fs.Parse(args)
 
 	rng := rand.New(rand.NewSource(*seed))
 	cfg := sl.Cfg{Transient: "t1", KR: *kr, KE: *ke, Backend: *backend, SPAL: *spal}
+	stratName := "<pair>" // MultiStore.tla: NoStrategy
+	if *useStrategy {
+		cfg.Strat = strategy
+		stratName = *strategy
+	}
+	// what the stores are really configured with (with a strategy: what the real function returned)
+	rkr, rke := cfg.Pruning().KeepRecent(), cfg.Pruning().KeepEvery()
 	for i := 1; i <= *nstores; i++ {
 		cfg.Stores = append(cfg.Stores, fmt.Sprintf("s%d", i))
 	}
@@ -295,6 +322,7 @@ func record(args []string) int {
 	w := bufio.NewWriterSize(os.Stdout, 1<<20)
 	defer w.Flush()
 	enc := json.NewEncoder(w)
+	enc.SetEscapeHTML(false)
 	emit := func(m sl.M) { enc.Encode(m) }
 
 	n, err := sl.NewNode(cfg)
@@ -303,7 +331,7 @@ func record(args []string) int {
 		return 2
 	}
 	defer n.Close()
-	emit(sl.M{"a": "reset", "kr": *kr, "ke": *ke, "spal": *spal, "stores": cfg.Stores, "seed": *seed, "backend": *backend})
+	emit(sl.M{"a": "reset", "kr": rkr, "ke": rke, "strat": stratName, "spal": *spal, "stores": cfg.Stores, "seed": *seed, "backend": *backend})
 	open := func() bool {
 		r := n.Reopen()
 		r["a"] = "open"
@@ -317,6 +345,49 @@ func record(args []string) int {
 		return hex.EncodeToString(n.H.MS.GetCommitStore(n.H.Keys[s]).LastCommitID().Hash)
 	}
 	all := append(append([]string{}, cfg.Stores...), cfg.Transient)
+	// LoadVersion calls on the live handle.  The recorder only decides by what the calls RETURN:
+	// after a call that returned nil for an older version the handle is rolled back and is brought
+	// to the latest version again before anything else is done with it (the specification has no
+	// writes / Commit on a rolled-back handle); after an error the handle is simply used on.
+	var lastVer int64 // version returned by the last Commit / reported at the last open
+	liveLoad := func(v int64) bool {
+		r := n.H.LiveLoad(v)
+		pre := r["pre"].(sl.M)
+		e := sl.M{"a": "liveload", "v": v, "ok": r["ok"], "ver": r["ver"], "hash": r["hash"], "stores": r["stores"], "trans": r["trans"],
+			"pver": pre["ver"], "phash": pre["hash"], "pstores": pre["stores"], "ptrans": pre["trans"]}
+		if r["ok"] != true {
+			e["err"] = r["err"]
+		}
+		emit(e)
+		return r["ok"] == true
+	}
+	// returns false when the history cannot go on
+	liveBurst := func(k int) bool {
+		rolled := false
+		for i := 0; i < k; i++ {
+			var v int64
+			switch rng.Intn(6) {
+			case 0:
+				v = lastVer + 1
+			case 1:
+				v = lastVer
+			default:
+				v = 1 + rng.Int63n(lastVer+1)
+			}
+			if v < 1 {
+				v = 1
+			}
+			if liveLoad(v) {
+				rolled = v != lastVer
+			}
+		}
+		if rolled && !liveLoad(lastVer) {
+			emit(sl.M{"a": "restart"})
+			return open()
+		}
+		return true
+	}
+	lastVer = n.H.MS.LastCommitID().Version
 	for c := 0; c < *commits; c++ {
 		nw := rng.Intn(*maxw + 1)
 		for i := 0; i < nw; i++ {
@@ -336,6 +407,11 @@ func record(args []string) int {
 			if rng.Float64() < *pobs/4 {
 				queryBurst(n, rng, keys, emit, 2)
 			}
+			if *pll > 0 && rng.Float64() < *pll/4 {
+				if !liveBurst(1) {
+					return 0
+				}
+			}
 		}
 		emit(sl.M{"a": "commitstart"})
 		n.DB.ResetLog()
@@ -345,6 +421,7 @@ func record(args []string) int {
 			return 0
 		}
 		n.Hashes[id.Version] = hex.EncodeToString(id.Hash)
+		lastVer = id.Version
 		// the durable writes of this commit, in the order they happened; SaveVersion and the
 		// pruning delete of one store belong together (iavl.Store.Commit), a store whose pruning
 		// wrote nothing still took the step
@@ -434,11 +511,17 @@ func record(args []string) int {
 			loadBurst(n, rng, emit, 3)
 			queryBurst(n, rng, keys, emit, 6)
 		}
+		if *pll > 0 && rng.Float64() < *pll {
+			if !liveBurst(1 + rng.Intn(2)) {
+				return 0
+			}
+		}
 		if rng.Float64() < *prestart {
 			emit(sl.M{"a": "restart"})
 			if !open() {
 				return 0
 			}
+			lastVer = n.H.MS.LastCommitID().Version
 		}
 	}
 	// final sweep: every version, a fresh handle
